@@ -67,13 +67,17 @@ class HyperVFile:
         self.key_tables: dict[int, list[HyperVStorageKeyTable]] = {}
         self.file_objects: dict[int, HyperVStorageFileObject] = {}
 
+        # Offsets of the object tables we already loaded, a table can't be referenced (and walked) twice
+        object_table_offsets = {c_hyperv.OBJECT_TABLE_OFFSET}
+
         for object_table in self.object_tables:
             for entry in object_table.entries:
                 if entry.allocated == 0:
                     continue
 
-                if entry.type == ObjectEntryType.ObjectTable:
+                if entry.type == ObjectEntryType.ObjectTable and entry.offset not in object_table_offsets:
                     # Haven't seen a file yet with additional object tables, but I assume this is how it'd work
+                    object_table_offsets.add(entry.offset)
                     new_object_table = HyperVStorageObjectTable(self, entry.offset)
                     self.object_tables.append(new_object_table)
 
